@@ -60,6 +60,8 @@ class Harness:
         self.cbcount = {}           # (kind, f) -> number of dispatches
         self.inel = {}              # (kind, f) -> number of times it stopped being eligible
         self.reg = {"r": set(), "w": set()}
+        self.ctl = None             # harness/selthread_s2c.Controller when a TLC behaviour is being forced
+        self.pending_hs = []        # controlled mode: posted _handle_select calls not yet delivered
 
     # -- identity / schedule perturbation
     def tid(self):
@@ -81,6 +83,16 @@ class Harness:
         elif x < p:
             time.sleep(r.choice((0.00005, 0.0002, 0.0005, 0.001)))
 
+    def gate(self, name):
+        """Shim point in front of event `name`.  Free mode: seeded schedule perturbation.
+        Controlled mode (spec -> code): park until the controller lets this thread take the step;
+        returns the controller's message (carries the select result chosen by the behaviour)."""
+        c = self.ctl
+        if c is not None and c.active:
+            return c.park(self.tid(), ("gate", name))
+        self.jitter()
+        return None
+
     # -- log
     def _append(self, a, args, obs):
         e = {"a": a, "t": self.tid()}
@@ -89,6 +101,8 @@ class Harness:
         if obs is not None:
             e["obs"] = obs
         self.events.append(e)
+        if self.ctl is not None:
+            self.ctl.logged()
 
     def ev(self, a, args=None, obs=None):
         with self.lock:
@@ -129,7 +143,7 @@ def make_threading_shim(H):
                 return {"args": {"some": False, "r": [98], "w": []}, "closing": False, "snap_err": type(e).__name__}
 
         def acquire(self, *a, **k):
-            H.jitter()
+            H.gate("acq")
             r = self._c.acquire(*a, **k)
             if r:
                 H.ev("acq", args=[H.mctx if H.tid() == MAIN else "s"])
@@ -137,7 +151,7 @@ def make_threading_shim(H):
             return r
 
         def release(self):
-            H.jitter()
+            H.gate("rel")
             H.ev("rel", obs=self._snap())
             self._c.release()
             H.jitter()
@@ -150,17 +164,20 @@ def make_threading_shim(H):
             self.release()
 
         def wait(self, timeout=None):
+            H.gate("wait")
             H.ev("wait")
             r = self._c.wait(WATCHDOG if timeout is None else timeout)
             if timeout is None and not r:
                 H.hung = True
                 H.ev("hang", args=["cond.wait"])
                 raise Hang("condition wait never notified")
+            H.gate("woke")
             H.ev("woke")
             H.jitter()
             return r
 
         def notify(self, n=1):
+            H.gate("notify")
             H.ev("notify")
             self._c.notify(n)
 
@@ -170,6 +187,7 @@ def make_threading_shim(H):
 
     class TThread(_real_threading.Thread):
         def start(self):
+            H.gate("tstart")
             H.ev("tstart")
             super().start()
             H.jitter()
@@ -185,7 +203,7 @@ def make_threading_shim(H):
                 H.error("selector thread: " + traceback.format_exc()[-1500:])
 
         def join(self, timeout=None):
-            H.jitter()
+            H.gate("joined")
             super().join(WATCHDOG if timeout is None else timeout)
             if self.is_alive() and timeout is None:
                 H.hung = True
@@ -211,7 +229,7 @@ def make_socket_shim(H):
             self._s = s
 
         def send(self, data):
-            H.jitter()
+            H.gate("wsend")
             with H.lock:
                 try:
                     n = self._s.send(data)
@@ -223,7 +241,7 @@ def make_socket_shim(H):
             return n
 
         def recv(self, n):
-            H.jitter()
+            H.gate("wrecv")
             with H.lock:
                 try:
                     d = self._s.recv(n)
@@ -254,9 +272,11 @@ def make_select_shim(H):
         error = _real_select.error
 
         def select(self, r, w, x, timeout=None):
-            H.jitter()
+            H.gate("sel_begin")
             H.ev("sel_begin", args={"r": sorted(H.idxs(r)), "w": sorted(H.idxs(w))})
-            H.jitter()
+            m = H.gate("sel_end")
+            if m is not None and m[0] == "go" and m[1] is not None:
+                return self._forced(r, w, x, m[1])
             t0 = time.monotonic()
             try:
                 rs, ws, xs = _real_select.select(r, w, x, WATCHDOG if timeout is None else timeout)
@@ -271,6 +291,22 @@ def make_select_shim(H):
             H.ev("sel_end", obs={"rs": H.idxs(rs), "ws": H.idxs(list(ws) + list(xs))})
             H.jitter()
             return rs, ws, xs
+
+        def _forced(self, r, w, x, want):
+            """Controlled mode: the behaviour chose the result (any legal one: order and, for fds
+            that became ready during the call, membership are the kernel's choice).  It is checked
+            against the real kernel state and returned in the chosen order."""
+            rs, ws, xs = _real_select.select(r, w, x, 0)
+            byidx_r = {H.idx(f): f for f in r}
+            byidx_w = {H.idx(f): f for f in w}
+            real_r, real_w = set(H.idxs(rs)), set(H.idxs(list(ws) + list(xs)))
+            if not (set(want["rs"]) <= real_r and set(want["ws"]) <= real_w):
+                H.error("forced select: behaviour wants %r but the kernel reports r=%r w=%r"
+                        % (want, sorted(real_r), sorted(real_w)))
+            out_r = [byidx_r[i] for i in want["rs"] if i in byidx_r]
+            out_w = [byidx_w[i] for i in want["ws"] if i in byidx_w]
+            H.ev("sel_end", obs={"rs": H.idxs(out_r), "ws": H.idxs(out_w)})
+            return out_r, out_w, []
 
         def __getattr__(self, name):
             return getattr(_real_select, name)
@@ -287,15 +323,21 @@ class TLoop(asyncio.SelectorEventLoop):
         H = self.H
         if H is not None and getattr(callback, "__name__", "") == "_handle_select":
             rs, ws = args
-            H.jitter()
+            H.gate("post")
             irs, iws = H.idxs(rs), H.idxs(ws)       # now: the waker may be closed when the callback runs
-            H.ev("post", args={"rs": irs, "ws": iws})
 
             def handle_select(rs, ws, _cb=callback):
-                H.jitter()
+                H.gate("hs")
                 H.ev("hs", args={"rs": irs, "ws": iws})
                 _cb(rs, ws)
 
+            if H.ctl is not None and H.ctl.active:
+                # controlled mode: the behaviour decides when the loop delivers the callback
+                with H.lock:
+                    H._append("post", {"rs": irs, "ws": iws}, None)
+                    H.pending_hs.append((handle_select, rs, ws))
+                return None
+            H.ev("post", args={"rs": irs, "ws": iws})
             return super().call_soon_threadsafe(handle_select, rs, ws, context=context)
         return super().call_soon_threadsafe(callback, *args, context=context)
 
@@ -345,6 +387,7 @@ class Run:
     def consume(self, k, f):
         """Callback body on the event-loop thread: drain (reader) / fill (writer) fd f."""
         H = self.H
+        H.gate("consume")
         with H.lock:
             if f not in H.ready[k]:
                 return False
@@ -364,6 +407,7 @@ class Run:
 
     def reg_op(self, op, k, f):
         H = self.H
+        H.gate("reg")
         H.ev("reg", args=[op, k, f])
         st = self.st
         if op == "add":
@@ -383,6 +427,7 @@ class Run:
                 self.close_called = True
                 self.st.close()
                 alive = self.st._thread is not None and self.st._thread.is_alive()
+                H.gate("closed")
                 H.ev("closed", obs={"alive": bool(alive)})
                 self.closed = True
             else:
@@ -394,11 +439,25 @@ class Run:
     # -- application callbacks registered with add_reader / add_writer
     def _callback(self, k, f):
         H = self.H
+        H.gate("cb")
         H.ev("cb", args=[k, f])
         H.cbcount[(k, f)] = H.cbcount.get((k, f), 0) + 1
         if H.tid() != MAIN:
             return                       # never touch loop-thread state from a foreign thread
         rng = self.rng
+        while H.ctl is not None and H.ctl.active:
+            # controlled mode: the behaviour scripts the callback body
+            m = H.ctl.park(MAIN, ("cb", k, f))
+            if m[0] == "consume":
+                self.consume(k, f)
+            elif m[0] == "reg":
+                self.reg_op(*m[1:])
+            elif m[0] == "close":
+                self.do_close("close")
+            elif m[0] == "return":
+                return
+            else:
+                break                    # released: finish in free mode
         quench = len(H.events) > self.max_events or self.finishing
         H.jitter()
         if quench:
